@@ -925,7 +925,9 @@ class OraclesMixin:
                             hidden_group=hidden_group,
                         )
         # O16.4: grouping state survives collect()
-        if op == "collect" and step.get("keep", True) and src.m.grouping:
+        if op == "collect" and src.m.grouping:
+            if not step.get("keep", True):
+                self.note("collect_fresh_grouped")
             self.note("collect_grouped")
             for rep in sorted(pt.real):
                 t_new, t_old = pt.real[rep], src.real.get(rep)
